@@ -32,6 +32,23 @@ def occupancies(sg, max_pairs=6):
     return occ
 
 
+class CellArr(np.ndarray):
+    """ase Cell as far as the analysed code looks at it: a 3x3 array with lengths() (three positive reals)"""
+
+    def __new__(cls, arr):
+        return np.asarray(arr).view(cls)
+
+    def lengths(self):
+        from engine.pyvc import cur
+        st = cur()
+        if "cell_lengths" not in st.ghost:
+            ls = [sreal("cell_len%d" % k) for k in range(3)]
+            for l in ls:
+                st.assume(z3num(l) > 0)
+            st.ghost["cell_lengths"] = np.array(ls, dtype=object)
+        return st.ghost["cell_lengths"]
+
+
 class StdSystem:
     """spglib's standardised system as seen by _find_wyckoff_ground_state: symbolic scaled positions, fixed species"""
 
@@ -42,7 +59,7 @@ class StdSystem:
         for i in range(n):
             for k in range(3):
                 self.scaled[i, k] = sreal("%s%d%d" % (prefix, i, k))
-        self.cell = sym_cell("c")
+        self.cell = CellArr(sym_cell("c"))
         self.set_calls = []
         self.is_copy = False
         self.origin = None
@@ -82,9 +99,15 @@ def run_ground_state(sg, occ):
         """geometry.get_wrapped_positions under its contract (proved in C20/C08): x mod 1, snapped to 0 within the precision"""
         a = np.array(bound["scaled_pos"], dtype=object)
         out = np.empty(a.shape, dtype=object)
-        prec = z3num(bound["precision"])
+        pr = bound["precision"]
+        if isinstance(pr, np.ndarray) and pr.shape != ():
+            precs = np.broadcast_to(pr, a.shape)
+        else:
+            precs = np.broadcast_to(np.array(pr, dtype=object), a.shape)
         for idx in np.ndindex(a.shape):
             x = a[idx]
+            prec = z3num(precs[idx])
+            st.ghost.setdefault("wrap_prec", []).append(prec)
             w = z3num(SR(z3num(x)) % 1)
             v = st.fresh_real("wrapped")
             st.assume(z3.Or(v == w, z3.And(v == 0, z3.Or(w < prec, 1 - w < prec))))
@@ -95,7 +118,9 @@ def run_ground_state(sg, occ):
 
     def thunk(st):
         it = Interp(st, contracts={"matid/geometry/geometry.py:get_wrapped_positions": wrapped_contract})
-        self_ = contexts.make_self(m, "SymmetryAnalyzer", {"_best_transform": None})
+        tol = sreal("symmetry_tol")
+        st.assume(z3num(tol) > 0)
+        self_ = contexts.make_self(m, "SymmetryAnalyzer", {"_best_transform": None, "symmetry_tol": tol})
         system = StdSystem(numbers)
         r = it.run_func(f, [self_, sg, letters, system], {})
         out.update(self=self_, system=system, result=r, st=st)
